@@ -39,6 +39,9 @@ pub(crate) mod c04;
 #[cfg(osrg_rustybgp_verif_shuttle)]
 #[path = "/verif/harness/s/c18s.rs"]
 pub(crate) mod c18s;
+#[cfg(osrg_rustybgp_verif_shuttle)]
+#[path = "/verif/harness/s/c01s.rs"]
+pub(crate) mod c01s;
 
 use vcore::{BatchPlan, Check};
 
@@ -88,7 +91,8 @@ fn plan(property: &str) -> BatchPlan {
 #[cfg(osrg_rustybgp_verif_shuttle)]
 pub(crate) fn verif_main(args: &[String]) -> i32 {
     let c18s = c18s::SubscribeInterleavings;
-    let checks: Vec<&dyn Check> = vec![&c18s];
+    let c01s = c01s::RegisterInterleavings;
+    let checks: Vec<&dyn Check> = vec![&c18s, &c01s];
     vcore::main_with(&checks, &|_p: &str| BatchPlan { quick_runs: 100_000, thorough_runs: 3_000_000 }, args)
 }
 
